@@ -28,6 +28,8 @@ fn profile(name: &str) -> RawCfg {
         min_len: 0,
         min_regions: 0,
         readers: false,
+        prefill: 0,
+        prefill_bytes: 0,
     };
     match name {
         // growth, relocation, reuse of freed space
@@ -41,6 +43,28 @@ fn profile(name: &str) -> RawCfg {
             names: 3,
             sizes: vec![1, 4097],
             kinds: kinds(&["create", "write", "remove", "flush", "reopen"]),
+            ..base
+        },
+        // free-extent bookkeeping: many small regions, removals in every order, flushes
+        "holes4" => RawCfg {
+            names: 4,
+            sizes: vec![],
+            kinds: kinds(&["create", "remove", "flush"]),
+            ..base
+        },
+        "holes4w" => RawCfg {
+            names: 4,
+            sizes: vec![9000],
+            kinds: kinds(&["create", "write", "remove", "flush", "reopen"]),
+            ..base
+        },
+        // start from four flushed one-page regions: growth into neighbours' freed space
+        "prefilled4" => RawCfg {
+            names: 4,
+            sizes: vec![9000, 13000],
+            kinds: kinds(&["write", "remove", "flush"]),
+            prefill: 4,
+            prefill_bytes: 100,
             ..base
         },
         // positional writes and truncations
@@ -133,10 +157,20 @@ fn plan(property: &str, tier: &str) -> Vec<(&'static str, usize)> {
     match property {
         "C01" => {
             if quick {
-                vec![("alloc", 6), ("edit", 5), ("names", 5), ("full", 3)]
+                vec![
+                    ("full", 3),
+                    ("names", 4),
+                    ("edit", 4),
+                    ("alloc", 5),
+                    ("holes4w", 5),
+                    ("prefilled4", 4),
+                ]
             } else {
                 vec![
                     ("alloc", 8),
+                    ("prefilled4", 7),
+                    ("holes4", 14),
+                    ("holes4w", 9),
                     ("alloc_small", 7),
                     ("edit", 6),
                     ("names", 6),
@@ -148,6 +182,9 @@ fn plan(property: &str, tier: &str) -> Vec<(&'static str, usize)> {
         "C02" => {
             if quick {
                 vec![
+                    ("holes4", 10),
+                    ("holes4w", 6),
+                    ("prefilled4", 5),
                     ("alloc", 5),
                     ("alloc_minlen_page", 5),
                     ("alloc_minlen_big", 5),
@@ -158,6 +195,8 @@ fn plan(property: &str, tier: &str) -> Vec<(&'static str, usize)> {
                 ]
             } else {
                 vec![
+                    ("holes4", 14),
+                    ("holes4w", 9),
                     ("alloc", 8),
                     ("alloc_small", 6),
                     ("alloc_minlen_page", 7),
@@ -215,6 +254,8 @@ pub fn add(run: &mut Run, kf: &KnownFindings, property: &str, tier: &str, wall: 
             })
             .collect();
     }
+    // cheap explorations first: what they leave of their share goes to the deep ones
+    plan.sort_by_key(|(p, _)| p.starts_with("holes4") || p.starts_with("prefilled"));
     let t0 = std::time::Instant::now();
     let n = plan.len();
     for (i, (pname, depth)) in plan.into_iter().enumerate() {
@@ -285,24 +326,10 @@ pub fn replay(doc: &serde_json::Value) -> i32 {
         let sigs: Vec<String> = step
             .violations
             .iter()
-            .filter(|v| v.property == property)
+            .filter(|v| v.property.split(',').any(|p| p == property))
             .map(|v| format!("{} :: {}", v.signature, v.detail))
             .collect();
         outcomes.push(sigs);
     }
-    if outcomes[0] != outcomes[1] {
-        eprintln!("MACHINERY-ERROR: replay is not deterministic: {outcomes:?}");
-        return 3;
-    }
-    println!("history: {}", doc["history"]);
-    if outcomes[0].is_empty() {
-        println!("replay: no violation of {property} at the last step");
-        0
-    } else {
-        for s in &outcomes[0] {
-            println!("replay: {s}");
-        }
-        println!("VIOLATION property={property} replay={}", doc["path"]);
-        1
-    }
+    crate::finish_replay(doc, property, outcomes)
 }
